@@ -10,13 +10,14 @@ import time
 from mc.core import Space, HarnessError, raised, VERIF, REPO
 
 ID = "C20"
-RULE = ("operation alphabet = one representative call of every public function/method (111 operations incl. randomised calls under a fixed NumPy "
+RULE = ("operation alphabet = one representative call of every public function/method (115 operations incl. randomised calls under a fixed NumPy "
         "seed and calls that raise); reference = each operation alone in a process forked from the pristine import state (cross-checked against "
         "truly fresh interpreters); explored: every single operation, every ordered pair (no state abstraction), triples over the stateful "
         "operations, and a BFS over canonical module states (data globals, __defaults__/__kwdefaults__, class attributes) where every operation "
         "is applied in every reachable state; at every step argument snapshots are compared before/after and the canonical result with the "
         "reference; non-trivial = history whose earlier operations changed the canonical module state")
-ASSUMPTIONS = ["five long-lived objects (two TCR metrics with non-default weights, a weighted Levenshtein metric, a SymdelDB and a LookupDB) are built at the start of every history and used by 'fixture-*' operations, so operations that disturb existing objects change a later result",
+ASSUMPTIONS = ["every returned object is overwritten in place by the harness after it has been canonicalised (results belong to the caller; a shared/cached return value would change a later result)",
+               "five long-lived objects (two TCR metrics with non-default weights, a weighted Levenshtein metric, a SymdelDB and a LookupDB) are built at the start of every history and used by 'fixture-*' operations, so operations that disturb existing objects change a later result",
                "state hidden inside third-party libraries (tidytcells caches, matplotlib rcParams, igraph RNG) is only observable through results; Python's random is re-seeded and pyplot figures are closed between operations",
                "a history runs in a child forked from a worker that never executes pyrepseq operations itself; equivalence of fork-from-pristine and a fresh interpreter is checked on a subset (quick) / all (thorough) operations",
                "matplotlib Axes passed as ax= are meant to be drawn on and are excluded from the argument-purity comparison"]
@@ -31,7 +32,7 @@ STATEFUL = ("kdtree", "kdtree-hamming", "kdtree-custom-ncpu2", "kdtree-short-lis
             "kdtree-maxreturns-ncpu2", "pc_conditional-ndarray-weights",
             "fixture-Cdr3Levenshtein-cdist", "fixture-CdrLevenshtein-pdist", "fixture-WeightedLevenshtein-cdist", "fixture-SymdelDB-lookup", "fixture-SymdelDB-lookup-hamming",
             "fixture-LookupDB-lookup-k2", "fixture-LookupDB-lookup-k1-custom", "new-Cdr3Levenshtein-default-cdist", "new-WeightedLevenshtein-312-pdist",
-            "multimerge-index-suffixes", "powerlaw_mle_alpha-exact-bounds", "powerlaw_mle_alpha-exact", "nearest_neighbor_tcrdist")
+            "multimerge-index-suffixes", "find_neighbor_pairs-set", "seqlogos-styled", "seqlogos_vj-styled", "load_pcDelta_background", "powerlaw_mle_alpha-exact-bounds", "powerlaw_mle_alpha-exact", "nearest_neighbor_tcrdist")
 
 
 def ops():
@@ -63,7 +64,7 @@ def run_ops_here(names):
     import warnings
     import numpy as np
     import matplotlib.pyplot as plt
-    from mc.canon import canon, module_state
+    from mc.canon import canon, module_state, scribble
     warnings.simplefilter("ignore")
     recs = []
     from props.c20_ops import fixtures
@@ -82,6 +83,7 @@ def run_ops_here(names):
             res = e
         after = canon([sa, sk])
         rec = {"op": name, "result": canon(res), "args_same": before == after}
+        scribble(res)            # the result is the caller's: overwriting it must not influence any later call
         if before != after:
             rec["args_before"], rec["args_after"] = before, after
         plt.close("all")
